@@ -75,10 +75,13 @@ func (exec *Executor) execArrayIndex(
 		next := node.Next()
 		innermostArraySize := exec.innermostArraySize
 		defer func() { exec.innermostArraySize = innermostArraySize }()
-		exec.innermostArraySize = size // for LAST evaluation
 
 		for _, subscript := range node.Subscripts() {
+			// LAST denotes this array inside its subscripts only, not in the
+			// steps that follow the accessor.
+			exec.innermostArraySize = size
 			indexFrom, indexTo, err := exec.execSubscript(ctx, subscript, value, size)
+			exec.innermostArraySize = innermostArraySize
 			if err != nil {
 				return exec.returnError(err)
 			}
